@@ -69,6 +69,8 @@ pub enum Act {
     Withdraw { user: String, part: String },
     Swap { user: String, dir: u8, amount: u128, loose: bool },
     Collect { user: String },
+    /// through fee_collector::CollectFees{Contracts}
+    CollectVia { user: String },
     SetFees { idx: usize },
 }
 
@@ -83,6 +85,11 @@ pub struct H {
 pub struct G {
     /// LP balance held by the pair itself (locked minimum liquidity) — must never decrease
     pub locked: u128,
+    /// C07 reference ledger: protocol / burn fees charged so far per asset (sums of the
+    /// individual charges reported by accepted swaps) and the token supplies at the root
+    pub charged: [u128; 2],
+    pub burned: [u128; 2],
+    pub supply0: [u128; 2],
 }
 
 pub const DN0: &str = "uwhale";
@@ -173,7 +180,10 @@ impl Scenario for PairScn {
             }
         }
         let locked = w.cw20_balance(&h.pair.lp, &h.pair.addr);
-        (h, G { locked })
+        let charged = pair_fees(w, &h.pair.addr, true).unwrap();
+        let burned = pair_burned(w, &h.pair.addr).unwrap();
+        let supply0 = [info_supply(w, &h.pair.assets[0]) + burned[0], info_supply(w, &h.pair.assets[1]) + burned[1]];
+        (h, G { locked, charged, burned, supply0 })
     }
 
     fn actions(&self, w: &World, h: &H, _g: &G, _depth: usize) -> Vec<Act> {
@@ -182,6 +192,38 @@ impl Scenario for PairScn {
             Some(x) => x,
             None => return v,
         };
+        if self.property == "C07" {
+            // swaps sized so that one operation's protocol fee lands below / at / above the
+            // collection threshold (1000) for the root's fee share, both directions
+            let pshare = h.root.fees.protocol.max(1);
+            let mut amts: Vec<u128> = vec![1, 999];
+            for target in [1u128, 500, 999, 1000, 1001, 1_000_000] {
+                // offer such that gross*share ~ target (reserves are large in C07 roots)
+                let a = (b(target) * b(ONE18) / b(pshare)).low_u128();
+                amts.push(a.max(2));
+                amts.push(a.max(2) + a / 50 + 1);
+            }
+            amts.sort();
+            amts.dedup();
+            for dir in 0..2u8 {
+                for a in &amts {
+                    if *a < res[dir as usize].saturating_mul(50) {
+                        v.push(Act::Swap { user: ALICE.to_string(), dir, amount: *a, loose: true });
+                    }
+                }
+            }
+            v.push(Act::Collect { user: MALLORY.to_string() });
+            v.push(Act::CollectVia { user: BOB.to_string() });
+            v.push(Act::Provide { user: BOB.to_string(), shape: Shape::Prop1pct, receiver: None });
+            if w.cw20_balance(&h.pair.lp, ALICE) > 0 {
+                v.push(Act::Withdraw { user: ALICE.to_string(), part: "half".to_string() });
+            }
+            for i in 0..self.fee_alphabet.len() {
+                v.push(Act::SetFees { idx: i });
+            }
+            let _ = supply;
+            return v;
+        }
         let users: &[&str] = if self.reduced { &USERS[..2] } else { &USERS[..] };
         // swaps
         for (ui, u) in users.iter().enumerate() {
@@ -338,8 +380,14 @@ impl Scenario for PairScn {
                         let ua = [info_balance(w, offer, user), info_balance(w, ask, user)];
                         let ret = attr_u128(&resp, Some(&p.addr), "swap", "return_amount").unwrap_or(u128::MAX);
                         let pf = attr_u128(&resp, Some(&p.addr), "swap", "protocol_fee_amount").unwrap_or(0);
+                        let bf = attr_u128(&resp, Some(&p.addr), "swap", "burn_fee_amount").unwrap_or(0);
+                        g.charged[1 - *dir as usize] += pf;
+                        g.burned[1 - *dir as usize] += bf;
                         if pf > 0 {
                             cx.count("swap:protocol_fee>0");
+                        }
+                        if bf > 0 {
+                            cx.count("swap:burn_fee>0");
                         }
                         cx.check("swap.user_deltas", ub[0] - ua[0] == *amount && ua[1] - ub[1] == ret, || {
                             format!("swap offer {} return attr {} but user deltas offer -{} ask +{}", amount, ret, ub[0] - ua[0], ua[1] - ub[1])
@@ -356,23 +404,50 @@ impl Scenario for PairScn {
                     }
                 }
             }
-            Act::Collect { user } => {
+            Act::Collect { user } | Act::CollectVia { user } => {
+                let holders: Vec<&str> = vec![ALICE, BOB, CAROL, MALLORY, OWNER, &h.hub.factory];
                 let cb = [info_balance(w, &p.assets[0], &h.hub.collector), info_balance(w, &p.assets[1], &h.hub.collector)];
-                match w.exec(user, &p.addr, &white_whale_std::pool_network::pair::ExecuteMsg::CollectProtocolFees {}, &[]) {
+                let ob: Vec<[u128; 2]> = holders.iter().map(|x| [info_balance(w, &p.assets[0], x), info_balance(w, &p.assets[1], x)]).collect();
+                let r = match a {
+                    Act::Collect { .. } => w.exec(user, &p.addr, &white_whale_std::pool_network::pair::ExecuteMsg::CollectProtocolFees {}, &[]),
+                    _ => w.exec(
+                        user,
+                        &h.hub.collector,
+                        &white_whale_std::fee_collector::ExecuteMsg::CollectFees {
+                            collect_fees_for: white_whale_std::fee_collector::FeesFor::Contracts {
+                                contracts: vec![white_whale_std::fee_collector::Contract {
+                                    address: p.addr.clone(),
+                                    contract_type: white_whale_std::fee_collector::ContractType::Pool {},
+                                }],
+                            },
+                        },
+                        &[],
+                    ),
+                };
+                match r {
                     Ok(_) => {
                         cx.count("collect:ok");
                         if pre_pending[0] > 0 || pre_pending[1] > 0 {
                             cx.count("collect:nonzero");
                         }
-                        let ca = [info_balance(w, &p.assets[0], &h.hub.collector), info_balance(w, &p.assets[1], &h.hub.collector)];
-                        let post_pending = pair_fees(w, &h.pair.addr, false).unwrap_or([0, 0]);
-                        for i in 0..2 {
-                            if self.property != "C07" {
-                                break;
+                        if (pre_pending[0] > 0 && pre_pending[0] <= 1000) || (pre_pending[1] > 0 && pre_pending[1] <= 1000) {
+                            cx.count("collect:sub_threshold_pending");
+                        }
+                        if self.property == "C07" {
+                            let ca = [info_balance(w, &p.assets[0], &h.hub.collector), info_balance(w, &p.assets[1], &h.hub.collector)];
+                            let post_pending = pair_fees(w, &h.pair.addr, false).unwrap_or([0, 0]);
+                            for i in 0..2 {
+                                let sig = if pre_pending[i] <= 1000 { "pending<=1000" } else { "" };
+                                cx.check_sig("collect.transfers_exactly_the_ledger_decrease", sig, ca[i] - cb[i] == pre_pending[i] - post_pending[i], || {
+                                    format!("collector got {} of asset {} but the pending ledger went {} -> {}", ca[i] - cb[i], i, pre_pending[i], post_pending[i])
+                                });
                             }
-                            cx.check("collect.pays_ledger_decrease", ca[i] - cb[i] == pre_pending[i] - post_pending[i], || {
-                                format!("collector got {} of asset {} but pending ledger went {} -> {}", ca[i] - cb[i], i, pre_pending[i], post_pending[i])
-                            });
+                            let oa: Vec<[u128; 2]> = holders.iter().map(|x| [info_balance(w, &p.assets[0], x), info_balance(w, &p.assets[1], x)]).collect();
+                            cx.check("collect.nobody_else_is_paid", oa == ob, || format!("balances of {:?} changed on collect: {:?} -> {:?}", holders, ob, oa));
+                            if let (Some((r0, s0)), Some((r1, s1))) = (pre, reserves(w, h)) {
+                                let sig = if pre_pending[0] <= 1000 && pre_pending[1] <= 1000 { "pending<=1000" } else if pre_pending[0] <= 1000 || pre_pending[1] <= 1000 { "pending<=1000" } else { "" };
+                                cx.check_sig("collect.lp_reserves_unchanged", sig, r0 == r1 && s0 == s1, || format!("reported reserves changed on collect: {:?}/{} -> {:?}/{}", r0, s0, r1, s1));
+                            }
                         }
                     }
                     Err(e) => {
@@ -429,6 +504,20 @@ impl Scenario for PairScn {
                 if supply > 0 {
                     let locked = w.cw20_balance(&p.lp, &p.addr);
                     cx.check("min_liquidity.locked", locked >= 1000, || format!("pair holds only {} LP", locked));
+                }
+                if self.property == "C07" {
+                    let all_time = pair_fees(w, &p.addr, true).unwrap_or([u128::MAX; 2]);
+                    let burned = pair_burned(w, &p.addr).unwrap_or([u128::MAX; 2]);
+                    for i in 0..2 {
+                        let coll = info_balance(w, &p.assets[i], &h.hub.collector);
+                        cx.check("ledger.pending_is_charged_minus_transferred", pending[i] == _g.charged[i].wrapping_sub(coll), || {
+                            format!("asset {}: pending ledger {} != charged {} - transferred to collector {}", i, pending[i], _g.charged[i], coll)
+                        });
+                        cx.check("ledger.all_time_is_sum_of_charges", all_time[i] == _g.charged[i], || format!("asset {}: all-time collected {} != sum of charges {}", i, all_time[i], _g.charged[i]));
+                        cx.check("ledger.burned_is_sum_of_burns", burned[i] == _g.burned[i], || format!("asset {}: all-time burned {} != sum of burn charges {}", i, burned[i], _g.burned[i]));
+                        let sup = info_supply(w, &p.assets[i]);
+                        cx.check("burn.leaves_circulation", sup == _g.supply0[i] - _g.burned[i], || format!("asset {}: supply {} != initial {} - burned {}", i, sup, _g.supply0[i], _g.burned[i]));
+                    }
                 }
                 if self.probe == Probe::SimEqExec {
                     self.probe_sim_eq_exec(w, h, res, cx);
